@@ -154,6 +154,8 @@ func (tx *Tx) Commit() error {
 
 	lastIndex := writesLen - 1
 	countFlag := CountFlagEnabled
+	verifAccess("isMerging", false, tx.db)
+	verifAccess("indexes", true, tx.db)
 	if tx.db.isMerging {
 		countFlag = CountFlagDisabled
 	}
@@ -284,17 +286,26 @@ func (tx *Tx) buildBucketMetaIdx(bucket string, key []byte, bucketMetaTemp Bucke
 	}
 
 	if updateFlag {
+		if h, _, err := verifFS("open", tx.db.getBucketMetaFilePath(bucket), 0, nil); h {
+			return err
+		}
 		fd, err := os.OpenFile(tx.db.getBucketMetaFilePath(bucket), os.O_CREATE|os.O_RDWR, 0644)
 		defer fd.Close()
 		if err != nil {
 			return err
 		}
 
+		if h, _, err := verifFS("write", fd.Name(), 0, bucketMeta.Encode()); h {
+			return err
+		}
 		if _, err = fd.WriteAt(bucketMeta.Encode(), 0); err != nil {
 			return err
 		}
 
 		if tx.db.opt.SyncEnable {
+			if h, _, err := verifFS("sync", fd.Name(), 0, nil); h {
+				return err
+			}
 			if err = fd.Sync(); err != nil {
 				return err
 			}
@@ -502,6 +513,7 @@ func (tx *Tx) rotateActiveFile() error {
 			return err
 		}
 
+		verifAccess("rootidxes", true, tx.db)
 		tx.db.BPTreeRootIdxes = append(tx.db.BPTreeRootIdxes, BPTreeRootIdx)
 
 		// clear and reset BPTreeKeyEntryPosMap
@@ -546,15 +558,18 @@ func (tx *Tx) Rollback() error {
 
 // lock locks the database based on the transaction type.
 func (tx *Tx) lock() {
+	verifGate("lock", tx.db)
 	if tx.writable {
 		tx.db.mu.Lock()
 	} else {
 		tx.db.mu.RLock()
 	}
+	verifLock("acq", tx.db, tx.writable)
 }
 
 // unlock unlocks the database based on the transaction type.
 func (tx *Tx) unlock() {
+	verifLock("rel", tx.db, tx.writable)
 	if tx.writable {
 		tx.db.mu.Unlock()
 	} else {
